@@ -284,6 +284,42 @@ func init() {
 		}
 		return res
 	}
+	// verifReplaceAll(s, old, new): replaces the occurrences of the concrete text old within the
+	// runs of concrete bytes of s (rendered pieces and symbolic bytes are kept as they are; a
+	// symbolic byte that could complete an occurrence is unsupported)
+	shims["verifReplaceAll"] = func(in *Interp, fr *frame, args []value) value {
+		old, nw := in.concStr(args[1], "verifReplaceAll old"), in.concStr(args[2], "verifReplaceAll new")
+		if s, ok := args[0].(string); ok {
+			return strings.ReplaceAll(s, old, nw)
+		}
+		r := in.ropeOf(args[0])
+		var out []Atom
+		var run []byte
+		flush := func() {
+			if len(run) > 0 {
+				out = append(out, in.litAtoms(strings.ReplaceAll(string(run), old, nw))...)
+				run = run[:0]
+			}
+		}
+		for _, a := range r.atoms {
+			if a.op == nil && a.t.IsConst() {
+				run = append(run, byte(a.t.val))
+				continue
+			}
+			if a.op == nil && len(old) > 0 {
+				// a symbolic byte: it must not be able to take part in an occurrence
+				for i := 0; i < len(old); i++ {
+					if in.branch(in.tb.Eq(a.t, in.tb.BV(SBV8, uint64(old[i])))) {
+						panic(unsupported{"verifReplaceAll: a symbolic byte may be part of the text to replace"})
+					}
+				}
+			}
+			flush()
+			out = append(out, a)
+		}
+		flush()
+		return normStr(&Rope{atoms: out})
+	}
 	shims["verifEventCount"] = func(in *Interp, fr *frame, args []value) value {
 		return in.intConst(int64(len(in.path.events)))
 	}
